@@ -234,4 +234,38 @@ def fieldsOf (z : Zoned) (Y : Int) (o : Nat) : Fields :=
 def truncSecs (z : Zoned) : Zoned :=
   ⟨⟨z.utc.date, ⟨z.utc.time.secs, if z.utc.time.frac ≥ 1000000000 then 1000000000 else 0⟩⟩, z.off⟩
 
+/-- the whole second after `z`'s second, same day, no sub-second part (meaningful when
+`z.utc.time.secs < 86399`) -/
+def nextSec (z : Zoned) : Zoned :=
+  ⟨⟨z.utc.date, ⟨z.utc.time.secs + 1, 0⟩⟩, z.off⟩
+
+/-- `z` carries the leap-second representation (nanosecond field ≥ 10⁹) on a second other than :59 of
+a minute — a value no public constructor but `with_nanosecond` builds.  Its instant is `secs + 1 +
+(frac − 10⁹)/10⁹`: to whole seconds, the FOLLOWING second. -/
+def InbandLeap (z : Zoned) : Prop := z.utc.time.frac ≥ 1000000000 ∧ z.utc.time.secs % 60 ≠ 59
+instance (z : Zoned) : Decidable (InbandLeap z) := by unfold InbandLeap; exact inferInstance
+
+/-- what the standard form of `z` reads back as: `z` to whole seconds with a leap second (on :59)
+kept, and for the in-band leap representation on another second the following whole second -/
+def readBack (z : Zoned) : Zoned := if InbandLeap z then nextSec z else truncSecs z
+
+/-! ### the white-space table against Unicode -/
+
+/-- the code points with the Unicode property `White_Space` (PropList.txt): U+0009–000D, 0020, 0085,
+00A0, 1680, 2000–200A, 2028, 2029, 202F, 205F, 3000 -/
+def WS_CODEPOINTS : List Nat :=
+  [0x9, 0xA, 0xB, 0xC, 0xD, 0x20, 0x85, 0xA0, 0x1680, 0x2000, 0x2001, 0x2002, 0x2003, 0x2004, 0x2005, 0x2006,
+   0x2007, 0x2008, 0x2009, 0x200A, 0x2028, 0x2029, 0x202F, 0x205F, 0x3000]
+
+/-- UTF-8 encoding of a code point below U+10000 (RFC 3629) -/
+def utf8Enc (cp : Nat) : List Nat :=
+  if cp < 0x80 then [cp]
+  else if cp < 0x800 then [0xC0 + cp / 64, 0x80 + cp % 64]
+  else [0xE0 + cp / 4096, 0x80 + cp / 64 % 64, 0x80 + cp % 64]
+
+/-- `n` comments nested in each other: `((( … )))` without the outermost pair -/
+def nestText : Nat → List Nat
+  | 0 => []
+  | n + 1 => 40 :: (nestText n ++ [41])
+
 end Chrono.Spec.Rfc2822
